@@ -94,13 +94,17 @@ def run_sequence(sc):
                 rec["raised"] = bool(r.get("raised"))
                 if not rec["raised"]:
                     # which version do the observed numbers belong to?
-                    match = 0
+                    # (several definitions can compute the same numbers, e.g. two declaration orders each with its own
+                    # code: code that computes what the current definition declares counts as the current version)
+                    matches = []
                     for sjson, vnum in versions.items():
                         ex = codegen_step.expected_values(json.loads(sjson))
                         if abs(r["y0"] - ex["y0"]) < 1e-9 and abs(r["gy"] - ex["gy_at_init"]) < 1e-9 and abs(r["ksv"] - ex["ksv"]) < 1e-9 \
                                 and abs(r["z0"] - ex["z0"]) < 1e-3 and abs(r["p0"] - ex["p0"]) < 1e-3 and abs(r["q0"] - ex["q0"]) < 1e-3 \
                                 and abs(r["ae"] - ex["ae"]) < 1e-9 and abs(r["gw1"] - ex["gw1"]) < 1e-9 and abs(r["gw2"] - ex["gw2"]) < 1e-9:       # iterative initialisation stops at TDS.config.tol
-                            match = vnum
+                            matches.append(vnum)
+                    current = versions[content_key(state)]
+                    match = current if current in matches else (matches[-1] if matches else 0)
                     rec["used_ver"] = match
                     rec["values_ok"] = bool(match != 0)
                     rec["reported_stale"] = bool(r.get("stale_reported"))
